@@ -333,6 +333,47 @@ func (e *Env) exec(op Op, ack *bool) error {
 		e.SavedLedger = append([]string(nil), e.Ledger...)
 		e.SavedTables = e.NTables
 		return os.WriteFile(e.Saved, img, 0o644)
+	case "savefiles": // keep raw copies of the database file AND its WAL (a cold file-level backup / volume snapshot)
+		e.endReader()
+		if e.App != nil {
+			// quiesce our own connections so the copy is a consistent pair
+			e.App.Close()
+			e.App = nil
+		}
+		if err := copyFile(e.DBPath, filepath.Join(e.Dir, "raw.db")); err != nil {
+			return err
+		}
+		os.Remove(filepath.Join(e.Dir, "raw.db-wal"))
+		if _, err := os.Stat(e.DBPath + "-wal"); err == nil {
+			if err := copyFile(e.DBPath+"-wal", filepath.Join(e.Dir, "raw.db-wal")); err != nil {
+				return err
+			}
+		}
+		e.RawSaved = true
+		e.RawK, e.RawLedger, e.RawTables = e.K, append([]string(nil), e.Ledger...), e.NTables
+		return nil
+	case "rollbackfiles": // while down: database file and WAL rolled back to the raw copies (same WAL generation)
+		if e.LS != nil || !e.RawSaved {
+			return nil
+		}
+		e.endReader()
+		if e.App != nil {
+			e.App.Close()
+			e.App = nil
+		}
+		os.Remove(e.DBPath + "-shm")
+		os.Remove(e.DBPath + "-wal")
+		os.Remove(e.DBPath)
+		if err := copyFile(filepath.Join(e.Dir, "raw.db"), e.DBPath); err != nil {
+			return err
+		}
+		if _, err := os.Stat(filepath.Join(e.Dir, "raw.db-wal")); err == nil {
+			if err := copyFile(filepath.Join(e.Dir, "raw.db-wal"), e.DBPath+"-wal"); err != nil {
+				return err
+			}
+		}
+		e.K, e.Ledger, e.NTables = e.RawK, append([]string(nil), e.RawLedger...), e.RawTables
+		return nil
 	case "replace": // while down: the database file is replaced by an older version
 		if e.LS != nil || e.Saved == "" {
 			return nil
